@@ -4,7 +4,7 @@ import FimVerif.Generated.CbmCfg
 open Lean FimVerif.Proto FimVerif.Cbm
 
 /-! Line-protocol driver for the CBM model.
-Requests: `["reset"]`, `["merge", spec, order]`, `["unmerge", gid]`, `["snapshot"]`, `["rollback", k]`.
+Requests: `["reset"]`, `["merge", spec, order]`, `["edit", spec]` (the source model stored under spec.id is replaced), `["unmerge", gid]`, `["snapshot"]`, `["rollback", k]`.
 Reply: `["ok", {"r": "ok" | error kind, "cbm": graph, "val": snapshot index | null, "agree": bool, "src": bool}]`.
 
 Every request is executed twice: by the interpreter of the *generated* plans on the model of the shared store
@@ -96,6 +96,15 @@ def handle (st : St) (j : Json) : St × Json :=
     let r := sstep P names st.sw (.unmerge gid)
     let ra := unmerge st.w.cbm gid
     reply ⟨{ st.w with cbm := ra.2 }, r.2⟩ r.1 ra.1 true
+  | .arr #[.str "edit", spec] =>
+    -- the source model moves on in the store (changed in place / reloaded under its id / deleted): the graph stored under its
+    -- id is replaced by the version sent; not a call of the combined model - the abstract model has nothing to do
+    match getAdm spec with
+    | some a =>
+      let s' := if a.g.nodes.isEmpty then st.sw.s.delGraph a.id else st.sw.s.load a
+      let st' : St := ⟨st.w, { st.sw with s := s' }⟩
+      reply st' none none ((s'.view a.id).sameAs a.g)
+    | none => (st, err "bad-args")
   | .arr #[.str "snapshot"] =>
     let r := sstep P names st.sw .snapshot
     let ra := snapshot st.w
